@@ -2,6 +2,7 @@ import GraafVerif.Driver.H02
 import GraafVerif.Model.Pred
 import GraafVerif.Model.PredFast
 import GraafVerif.Spec.Pred
+import GraafVerif.Spec.PredFamilies
 /-!
 Driver handlers for property C12 (ops of `harness/src/ops/c12.rs`): `pred_unary`, `pred_rel`.
 
@@ -33,7 +34,7 @@ def schedReverse (workers order : Nat) : List Nat :=
 def mkInst (t : Nat) (d : GDesc) : Option Inst :=
   match d.repr with
   | "al" =>
-    if d.order > 128 then
+    if d.order > 40 then
       -- large orders: the Array / bitset twins, each PROVED equal to the list model
       -- (`Proof/PredFast.lean`: buildRowsFast_eq, coreFast_eq, isSemicompleteFast_eq, isTournamentFast_eq)
       (Pred.AL.buildRowsFast d.order d.arcs).map fun g =>
@@ -157,6 +158,62 @@ def hTour : Handler := fun t args observed =>
     pure { v with tags := v.tags ++ [if n ≥ 192 then "order>=192" else "order<192"] }
   | _ => none
 
-def handlers : List (String × Handler) := [("pred_unary", hUnary), ("pred_rel", hRel), ("pred_tour", hTour)]
+/-- `pred_minus_pair <repr> <n> <u> <v> <mode>` (`c12.rs: minus_pair_arcs`): `pair` = complete(n) minus both arcs
+between `u` and `v`, `arc` = complete(n) minus `u → v`, `tour` = the rule tournament with `{u, v}` not joined.
+No arc list in the output: the summary `[order size has_arc(u,v) has_arc(v,u) arcs()==rule]` ties the built
+digraph to the description; the oracle evaluates the definitions on the rule's closed-form arc relation
+(`Spec/PredFamilies.lean`; closed-form answers proved in `Proof/PredFamilies.lean`). -/
+def minusPairArcs (n u v : Nat) (mode : String) : List (Nat × Nat) :=
+  if mode == "tour" then tourArcs n (some (min u v, max u v))
+  else
+    (List.range n).reverse.flatMap (fun b => (List.range n).reverse.filterMap (fun a =>
+      let removed := (a == u && b == v) || (mode == "pair" && a == v && b == u)
+      if a != b && !removed then some (a, b) else none))
+
+def hMinusPair : Handler := fun t args observed =>
+  match args with
+  | [.a repr, nV, uV, vV, .a mode] => do
+    let n ← V.nat? nV
+    let u ← V.nat? uV
+    let v ← V.nat? vV
+    if u == v || u ≥ n || v ≥ n then none
+    if !(mode == "pair" || mode == "arc" || (mode == "tour" && n ≥ 4)) then none
+    let Gd : Digraph :=
+      if mode == "pair" then Fam.completeMinusPair n u v
+      else if mode == "arc" then Fam.completeMinusArc n u v
+      else Fam.tourMinusPair n (min u v) (max u v)
+    let ruleSorted := Spec.arcs Gd
+    let want : List V :=
+      [.l [V.ofNat n, V.ofNat ruleSorted.length, V.ofBool (Gd.adj u v), V.ofBool (Gd.adj v u), V.ofBool true],
+       V.ofBool (DefB.isComplete Gd), V.ofBool (DefB.isSemicomplete Gd), V.ofBool (DefB.isTournament Gd),
+       V.ofBool (DefB.isRegular Gd), V.ofBool (DefB.isBalanced Gd), V.ofBool (DefB.isSymmetric Gd),
+       V.ofBool (DefB.isOriented Gd), V.ofBool true, V.ofBool true]
+    let arcs := minusPairArcs n u v mode
+    let isW := repr == "wu" || repr == "wi"
+    let head := if repr == "am" then V.ofNats (List.range n) else V.ofNat n
+    let arcsV : V := if isW then .l (arcs.map (fun a => .l [V.ofNat a.1, V.ofNat a.2, V.ofNat 1])) else V.ofPairs arcs
+    let d ← GDesc.parse (.l [.a repr, head, arcsV])
+    let model : List V :=
+      match mkInst t d with
+      | none => [panicV]
+      | some m =>
+        [.l [V.ofNat m.core.order, V.ofNat m.core.size, V.ofBool (m.core.hasArc u v), V.ofBool (m.core.hasArc v u),
+             V.ofBool (m.core.arcs == ruleSorted)],
+         oBool m.isComplete, oBool m.isSemicomplete, oBool m.isTournament, oBool (Blanket.isRegular m.core),
+         oBool (Blanket.isBalanced m.core), V.ofBool (Blanket.isSymmetric m.core), V.ofBool (Blanket.isOriented m.core),
+         oBool m.isSimple, V.ofBool true]
+    let names := ["summary [order size has_arc(u,v) has_arc(v,u) arcs()==rule]"] ++ (unaryNames.drop 1)
+    let propFail : Option String :=
+      match firstDiff observed want with
+      | none => none
+      | some (i, o, w) => some s!"{names[i]?.getD "?"}: implementation {short o} definition-on-the-described-digraph {short w}"
+    let lo := min u v
+    let rowTag := if lo == 0 then "row=first" else if lo + 2 == n then "row=last" else if lo == (n - 2) / 2 then "row=middle" else "row=inner"
+    let tags := [s!"repr={repr}", sizeTag n, s!"mode={mode}", rowTag, if n % 2 == 0 then "order-even" else "order-odd",
+                 if n ≥ 128 then "order>=128" else "order<128", s!"threads={min t 17}"]
+    pure (classify observed model propFail (nt := n ≥ 3) tags)
+  | _ => none
+
+def handlers : List (String × Handler) := [("pred_minus_pair", hMinusPair), ("pred_unary", hUnary), ("pred_rel", hRel), ("pred_tour", hTour)]
 
 end GraafVerif.Driver.H12
